@@ -312,6 +312,23 @@ def check_history(links, n, removal, how):
     r = judge_flood(stm, cons, rest)
     if r:
       return "after %s of %s (links left %s): %s" % ("the expiry" if how == "expire" else "the disconnect of the switch", removal, rest, r)
+    if how == "down":
+      # the switch comes back: a NEW connection (its ports flood, nothing is configured on it yet), spanning_tree is told
+      # (ConnectionUp), and its links are discovered again one by one
+      cons[sw] = FakeCon(sw, sorted(gone.ports))
+      up = FakeEvent()
+      up.dpid, up.connection = sw, cons[sw]
+      stm._handle_ConnectionUp(up)
+      now = list(rest)
+      for (s1, p1, s2, p2) in removal:
+        ev = FakeEvent()
+        ev.parsed = pkt.ethernet(dm.LLDPSender._create_discovery_packet(s1, p1, EthAddr(b"\x02\x00\x00\x00\x00\x01"), 120).pack())
+        ev.dpid, ev.port, ev.connection, ev.ofp = s2, p2, None, None
+        disc._handle_openflow_PacketIn(ev)
+        now.append((s1, p1, s2, p2))
+        r = judge_flood(stm, cons, now)
+        if r:
+          return "after switch %s reconnected and link %s.%s->%s.%s was discovered again (links %s): %s" % (sw, s1, p1, s2, p2, now, r)
     return None
   finally:
     dm.time.time = _t.time
